@@ -96,3 +96,14 @@ Definition deliver_falling_through (res : chain_result) : outcome :=
   match res with RError => OErrorPath | RValid => OVisited | _ => ONothing end.
 Definition outcome_eqb (a b : outcome) : bool :=
   match a, b with OErrorPath, OErrorPath | OVisited, OVisited | ONothing, ONothing => true | _, _ => false end.
+
+(** What the chain hands back is a PAIR (value, error), as Go functions do: the error is looked at first, and with an
+    error the value - even a valid response object of the operation - is not written.  [deliver_pair] is the wrapper's
+    if err != nil {...} else if valid {...} else if value != nil {...}; [deliver_pair_no_else] is the text with the first
+    else lost: both branches run, the response is written over the pending error status. *)
+Inductive value_kind := VNil | VValid | VForeign.
+Definition deliver_pair (v : value_kind) (err : bool) : list outcome :=
+  if err then [OErrorPath]
+  else match v with VValid => [OVisited] | VForeign => [OErrorPath] | VNil => [] end.
+Definition deliver_pair_no_else (v : value_kind) (err : bool) : list outcome :=
+  (if err then [OErrorPath] else []) ++ match v with VValid => [OVisited] | VForeign => [OErrorPath] | VNil => [] end.
